@@ -151,6 +151,125 @@ def features(c: Dict[str, Any]) -> List[str]:
 
 
 # ------------------------------------------------------------------------------------------
+# which inputs the statement quantifies over (computed from the case input, never from its stream)
+# ------------------------------------------------------------------------------------------
+# properties.jsonl, C11: "custom attribute string composed of tags of the form name {key:value; ...} (one space
+# between name and brace; values free of semicolons, colons and braces; arbitrary whitespace inside the braces;
+# optional trailing semicolon; empty braces; repeated tag names)"; quantifier: "tag names, keys and values drawn from
+# word characters (plus spaces, dots and dashes in values), 0..n tags, 0..m attributes per tag, every whitespace
+# placement; all lines whose tags carry offset/length within or beyond the text".  Everything else (a part with a
+# second colon, a brace inside the braces, a part without a colon, an empty part in the middle, text that is no tag,
+# a non-integer offset/length/index, a requested tag without offset/length or with a negative one, a requested tag
+# on a line without text) is OUTSIDE: the statement says nothing about it — not even that it is rejected.
+
+_INT_LITERAL = re.compile(r'[+-]?[0-9]+(?:_[0-9]+)*')     # what int() takes (ASCII digits: DESIGN §6)
+
+
+def _is_word(ch: str) -> bool:
+    return bool(_WORD.match(ch))
+
+
+def _blank(w: str) -> bool:
+    """whitespace that may stand inside the braces: isspace() characters but the newline (DESIGN §9)"""
+    return all(ch.isspace() and ch != '\n' for ch in w)
+
+
+def _attr_of_part(part: str) -> Optional[Dict[str, str]]:
+    if part.count(':') != 1:            # "values free of ... colons": a second colon is outside the statement
+        return None
+    kp, vp = part.split(':')
+    key, value = kp.strip(), vp.strip()
+    if not key or not value or not all(_is_word(ch) for ch in key):
+        return None
+    if key in INT_KEYS:                 # "where offset, length and index are integers"
+        if not _INT_LITERAL.fullmatch(value):
+            return None
+    elif not all(_is_word(ch) or ch in ' .-' for ch in value):
+        return None
+    a = mk_attr(key, value, kp[:len(kp) - len(kp.lstrip())], kp[len(kp.rstrip()):],
+                vp[:len(vp) - len(vp.lstrip())], vp[len(vp.rstrip()):])
+    if not all(_blank(a[k]) for k in ('pre', 'postKey', 'preVal', 'postVal')):
+        return None
+    return a
+
+
+def raw_as_grammar(s: str) -> Optional[Dict[str, Any]]:
+    """the laid-out grammar string `c` with render(c) == s when `s` is a custom string of the statement (tags only,
+    separated by non-word text without braces), else None"""
+    laid: List[Dict[str, Any]] = []
+    i, n = 0, len(s)
+    while True:
+        j = i
+        while j < n and not _is_word(s[j]) and s[j] not in '{}':
+            j += 1
+        sep = s[i:j]
+        if j == n:
+            c = {'laid': laid, 'tail': sep}
+            return c if render(c) == s else None
+        if s[j] in '{}':
+            return None
+        k = j
+        while k < n and _is_word(s[k]):
+            k += 1
+        if not s.startswith(' {', k):   # "one space between name and brace"
+            return None
+        e = s.find('}', k + 2)
+        if e < 0:
+            return None
+        body = s[k + 2:e]
+        if '{' in body or '\n' in body:
+            return None
+        parts = body.split(';')
+        trailing, close = False, ''
+        if _blank(parts[-1]):           # empty braces, or an optional trailing semicolon
+            trailing, close, parts = True, parts[-1], parts[:-1]
+        attrs = [_attr_of_part(p) for p in parts]
+        if any(a is None for a in attrs):
+            return None
+        laid.append(mk_tag(s[j:k], attrs, sep=sep, trailing=trailing, close=close))
+        i = e + 1
+
+
+def seen_custom(c: Optional[Dict[str, Any]], literal_ws: bool) -> Optional[Dict[str, Any]]:
+    """a custom attribute of an XML case as a grammar string the way the parser gets to see it, or None if it lies
+    outside the statement"""
+    if c is None:
+        return None
+    if 'laid' in c:
+        return c if in_reading(c, literal_ws) else None
+    return raw_as_grammar(normalised(c['raw'], literal_ws))
+
+
+def outside_quantifier(kind: str, inp: Any) -> Optional[str]:
+    """None if the case input is one the statement quantifies over, else the reason"""
+    if kind == 'grammar':
+        return None                      # generated from the grammar of the statement
+    if kind == 'raw':
+        return None if raw_as_grammar(inp['s']) is not None else 'not a string of tags name {key:value; ...}'
+    if kind == 'xml':
+        lw = inp.get('literal_ws', True)
+        req = inp.get('custom_tags') or []
+        for k, spec in doc_elements(inp):
+            if spec.get('custom') is None:
+                continue
+            g = seen_custom(spec['custom'], lw)
+            if g is None:
+                return f'custom attribute of a {k} is not a string of tags name {{key:value; ...}}'
+            if k == 'line' and req:
+                # "all lines whose tags carry offset/length within or beyond the text"
+                for t in g['laid']:
+                    if t['name'] not in req:
+                        continue
+                    d = {a['key']: a['value'] for a in t['attrs']}
+                    if 'offset' not in d or 'length' not in d or int(d['offset']) < 0 or int(d['length']) < 0:
+                        return 'requested tag without offset/length, or with a negative one'
+                    if spec.get('text') is None:
+                        return 'requested tag on a line without text'
+        return None
+    return None
+
+
+# ------------------------------------------------------------------------------------------
 # canonical forms of the real code's outputs
 # ------------------------------------------------------------------------------------------
 
@@ -199,6 +318,35 @@ def canon_metadata(md: Dict[str, Any], is_line: bool) -> Dict[str, Any]:
         'custom_tags': [canon_dict(d) for d in md['custom_tags']] if 'custom_tags' in md else None,
     }
     return out
+
+
+ROW_KEYS = ('type', 'value', 'region_id', 'line_id', 'offset', 'length')
+
+
+def stated_rows(rows: Any) -> Any:
+    """get_custom_tags rows on the keys the statement speaks of ("a custom tag's reported value is the substring of
+    its line's text at that offset and length", identified by tag type, region and line): further keys a row may
+    carry are not excluded by the statement and are not compared"""
+    if isinstance(rows, dict) and isinstance(rows.get('ok'), list):
+        return {'ok': [{k: r[k] for k in ROW_KEYS if k in r} if isinstance(r, dict) else r for r in rows['ok']]}
+    return rows
+
+
+def same_serialisation(a: Any, b: Any) -> bool:
+    """`make_custom_string` of model and code: the statement only observes the serialised text through "serialising
+    the parsed entries and parsing again yields the same entries", so two texts that are both custom strings of the
+    statement and stand for the same tags (names, keys, typed values, in order) are the same serialisation; the
+    whitespace / semicolon layout of the text is free.  Anything else is compared exactly."""
+    if a == b:
+        return True
+    if not (isinstance(a, dict) and isinstance(b, dict) and isinstance(a.get('ok'), str) and isinstance(b.get('ok'), str)):
+        return False
+    ga, gb = raw_as_grammar(a['ok']), raw_as_grammar(b['ok'])
+    if ga is None or gb is None:
+        return False
+    pairs = lambda g: [(t['name'], [(x['key'], int(x['value']) if x['key'] in INT_KEYS else x['value'])
+                                    for x in t['attrs']]) for t in g['laid']]
+    return pairs(ga) == pairs(gb)
 
 
 # ------------------------------------------------------------------------------------------
@@ -557,7 +705,14 @@ class C11(Check):
         'C11_dedicated_fields_of_boundary_guards is the full-strength statement for a source whose guards are '
         'word-boundary searches (the guard style is regenerated from the source on every run). Not proved, only sampled: that CPython re implements '
         'the pattern as the hand-compiled scanner; the document-level walk of get_custom_tags (its per-tag row is '
-        'proved); XML attribute-value normalisation; int() on non-ASCII digits is outside the model')
+        'proved); XML attribute-value normalisation; int() on non-ASCII digits is outside the model. '
+        'Correspondence level: inputs outside the quantifier (decided per case from its input: text that is not a '
+        'sequence of tags name {key:value; ...}, a part with a second colon / a brace / no colon, a non-integer '
+        'offset/length/index, requested tags without or with negative offset/length or on a line without text) carry '
+        'core.OUTSIDE and are mirrored only, not judged; inside it entries, typed values, order, dedicated fields, '
+        'types and tag values are compared exactly, except: the text of make_custom_string up to its whitespace / '
+        'semicolon layout (same tags after re-reading), a dedicated field without its tag up to truthiness (missing / '
+        'None / {} / []), the type list of a region or table as a set, get_custom_tags rows on the six stated keys')
     assumptions = [
         'CPython re implements \\b(\\w+) {(.*?)} as the hand-compiled scanner (finditer: leftmost match, continue '
         'after it); sampled by the correspondence on adversarial strings',
@@ -744,6 +899,11 @@ end Pagexml.C11.Gen
         for c in out:
             if c.kind == 'grammar':
                 c.tags.extend(features(c.input))
+            # outside the quantifier of the statement (decided per case from its input, see outside_quantifier):
+            # the model still mirrors the code there, a difference is only recorded (core.OUTSIDE), and the
+            # oracle does not judge the case
+            if outside_quantifier(c.kind, c.input) is not None:
+                c.tags.append(core.OUTSIDE)
         return out
 
     # ---------------------------------------------------------------- implementation
@@ -834,7 +994,7 @@ end Pagexml.C11.Gen
             if ie != me:
                 return f'parse: impl={core.short(ie)} model={core.short(me)}'
             if len(model_out) == 3:
-                if model_out[1] != impl_out['ok']['made']:
+                if not same_serialisation(model_out[1], impl_out['ok']['made']):
                     return f'make_custom_string: impl={impl_out["ok"]["made"]} model={model_out[1]}'
                 again = impl_out['ok']['again']
                 if 'ok' in again and 'ok' in model_out[2]:
@@ -874,11 +1034,18 @@ end Pagexml.C11.Gen
                 }
                 got = dict(md, custom_attributes=None if md['custom_attributes'] is None else
                            [sort_entry(e) for e in md['custom_attributes']])
+                # "reading-order, structure and text-style tags and any requested custom tag names are also exposed
+                # in their dedicated metadata fields": what a field holds when there is NO such tag (missing key,
+                # None, {} or []) is not stated — compared up to truthiness
+                for f in ('reading_order', 'structure', 'text_style', 'custom_tags'):
+                    got[f], want[f] = got[f] or None, want[f] or None
                 if got != want:
                     return f'{kind} {el["id"]} metadata: impl={core.short(got)} model={core.short(want)}'
-                if kind in ('region', 'table') and el['types'] != a['types']:
+                # "a region's or table's structure type becomes ONE OF its types": membership, so the type list is
+                # compared as a set (its order is not C11's business)
+                if kind in ('region', 'table') and sorted(set(el['types'])) != sorted(set(a['types'])):
                     return f'{kind} {el["id"]} types: impl={el["types"]} model={a["types"]}'
-            if impl_out['ok']['rows'] != rows_answer:
+            if stated_rows(impl_out['ok']['rows']) != stated_rows(rows_answer):
                 return f'get_custom_tags: impl={core.short(impl_out["ok"]["rows"])} model={core.short(rows_answer)}'
             return None
         return None
@@ -913,14 +1080,18 @@ end Pagexml.C11.Gen
 
         def bad(key, what):
             fs.append(Finding(f'C11:{key}', what, case, out))
+        # cases outside the quantifier are not judged: the statement says nothing about them.  Decided from the
+        # case input (not from its tags), so that shrunk candidates are classified by what they are.
+        if outside_quantifier(case.kind, case.input) is not None:
+            return fs
         if case.kind in ('grammar', 'raw'):
+            # a raw string that gets here IS a custom string of the statement: judged like a generated one
+            c = case.input if case.kind == 'grammar' else raw_as_grammar(case.input['s'])
             if 'err' in out:
-                if case.kind == 'grammar':
-                    bad(f'grammar-rejected:{features(case.input)[0]}', f'grammar string rejected with {out["err"]}')
+                bad(f'grammar-rejected:{features(c)[0]}', f'grammar string rejected with {out["err"]}')
                 return fs
             o = out['ok']
-            if case.kind == 'grammar':
-                self._judge_entries(case.input, o['entries'], bad)
+            self._judge_entries(c, o['entries'], bad)
             # serialising the parsed entries and parsing again yields the same entries
             if 'err' in o['made']:
                 bad('serialise-raises', f'make_custom_string raised {o["made"]["err"]} on parsed entries')
@@ -934,10 +1105,13 @@ end Pagexml.C11.Gen
             doc = case.input
             specs = list(doc_elements(doc))
             lw = doc.get('literal_ws', True)
+            # (every custom attribute of a case that gets here is a custom string of the statement; the ones given
+            #  as raw text are judged through their grammar form)
+            specs = [(k, dict(s, custom=seen_custom(s.get('custom'), lw))) for k, s in specs]
             all_grammar = all(s.get('custom') is None or in_reading(s['custom'], lw) for _, s in specs)
             req = doc.get('custom_tags') or []
             if 'err' in out:
-                if all_grammar and 'malformed' not in case.tags:
+                if all_grammar:
                     feats = [f for _, s in specs if s.get('custom') for f in features(s['custom'])]
                     cls = 'name-ends-with-dedicated' if any(guard_defect(s.get('custom')) for _, s in specs) else (feats or ['plain'])[0]
                     bad(f'document-rejected:{cls}', f'a document whose custom attributes all follow the grammar is rejected with {out["err"]}')
@@ -1014,7 +1188,7 @@ end Pagexml.C11.Gen
             if judge and req:
                 if 'err' in rows:
                     bad('tag-value-raises', f'get_custom_tags raised {rows["err"]}')
-                elif rows['ok'] != want_rows:
+                elif stated_rows(rows)['ok'] != want_rows:
                     bad('tag-value', f'get_custom_tags gives {core.short(rows["ok"])}, expected {core.short(want_rows)}')
             return fs
         return fs
